@@ -42,6 +42,22 @@ pub fn seeds() -> Vec<Seed> {
 		s.frames = if nchars == 0 && !crate::spec::gte(v, (2, 2)) { vec![] } else { gen::gen_frames(&mut rng, v, nchars, 5, i % 2 == 1, if absence { 3 } else { 0 }, 2) };
 		s.rich_start = i % 2 == 0;
 		s.metadata = if i % 4 == 3 { None } else { Some(gen::gen_meta(&mut rng, 2, 3)) };
+		if i == 5 || i == 9 {
+			// two seeds carry several KiB of mostly non-ASCII metadata (1- to 4-byte characters at
+			// shifting alignments): whatever the reader does with the rendered text (log lines,
+			// previews, error messages) meets multi-byte characters at every byte offset
+			use crate::model::MVal;
+			let mut m: crate::model::Meta = vec![("startAt".into(), MVal::Str("2020年8月16日 午前7時2分53秒".into())), ("lastFrame".into(), MVal::Int(11238))];
+			for (j, ch) in ['あ', 'é', '😀', '漢', 'ß', '\u{10ffff}', 'ｱ', '年'].iter().enumerate() {
+				let mut t = "x".repeat((i + j) % 4);
+				while t.len() + ch.len_utf8() <= 250 {
+					t.push(*ch);
+				}
+				m.push((format!("k{}{}", j, "é".repeat(j % 3)), MVal::Str(t)));
+			}
+			m.push(("players".into(), MVal::Map(vec![("0".into(), MVal::Map(vec![("names".into(), MVal::Map(vec![("netplay".into(), MVal::Str("ﾌｫｯｸｽ".into())), ("code".into(), MVal::Str("ＡＢ＃１".into()))]))]))])));
+			s.metadata = Some(m);
+		}
 		s.ends = if i % 5 == 4 { 0 } else if i % 5 == 3 { 2 } else { 1 };
 		if crate::spec::gte(v, (3, 3)) && i % 2 == 0 {
 			// 1, 2 or 3 message-splitter blocks (runs of >= 2 blocks have inner boundaries)
